@@ -6,6 +6,7 @@ Definition pins : list string := ["usim/__init__.py:run";
   "usim/_core/loop.py:ActivityLeak.__init__";
   "usim/_core/loop.py:Hibernate.__await__";
   "usim/_core/loop.py:Loop.__init__";
+  "usim/_core/loop.py:Loop.__repr__";
   "usim/_core/loop.py:Loop.run";
   "usim/_core/loop.py:Loop._run_events";
   "usim/_core/loop.py:Loop._run_coroutine";
@@ -13,8 +14,10 @@ Definition pins : list string := ["usim/__init__.py:run";
   "usim/_core/loop.py:Interrupt.__init__";
   "usim/_core/loop.py:Interrupt.__bool__";
   "usim/_core/loop.py:Interrupt.revoke";
+  "usim/_core/loop.py:Interrupt.__repr__";
   "usim/_core/loop.py:Activation.__init__";
   "usim/_core/loop.py:Activation.__bool__";
+  "usim/_core/loop.py:Activation.__repr__";
   "usim/_core/loop.py:<module>";
   "usim/_core/loop.py:Hibernate.<attrs>";
   "usim/_core/loop.py:Loop.<attrs>";
@@ -22,6 +25,7 @@ Definition pins : list string := ["usim/__init__.py:run";
   "usim/_core/loop.py:Activation.<attrs>";
   "usim/_core/handler.py:MissingLoop.__init__";
   "usim/_core/handler.py:MissingLoop.__getattr__";
+  "usim/_core/handler.py:MissingLoop.__repr__";
   "usim/_core/handler.py:StateHandler.is_active";
   "usim/_core/handler.py:StateHandler.__init__";
   "usim/_core/handler.py:StateHandler.assign";
